@@ -1001,6 +1001,84 @@ async fn receivership_inner(w: &mut World, m: &mut Mon, r: &mut R, lev: &Lev, re
     }
 }
 
+/// C17: an account is left with a debt of a fraction of a unit in a bank (borrow, a minute of
+/// interest, repayment of the borrowed amount - not repay-all), then the bank's deposit limit is
+/// set just above what is deposited and the account deposits far more than the remaining capacity
+/// (plain and "up to limit"). Judged by the deposit-limit monitor: whatever is accepted must leave
+/// the bank's deposits below the limit.
+pub async fn dust_debt_then_deposit_over_cap(w: &mut World, m: &mut Mon, r: &mut R, g: usize, lender: usize) {
+    let hosts: Vec<usize> = (0..w.banks.len()).filter(|b| w.banks[*b].group == g && w.banks[*b].venue.is_none() && matches!(w.mints[w.banks[*b].mint].kind, TokKind::Classic | TokKind::T22) && matches!(w.banks[*b].oracle, OracleD::Pyth(_) | OracleD::Swb(_) | OracleD::Fixed)).collect();
+    if hosts.is_empty() {
+        m.r.count("scen.dust_debt_scenario_not_possible");
+        return;
+    }
+    let mint = w.banks[pick(r, &hosts)].mint;
+    let (x, y) = match (w.add_bank_fixed(g, mint, default_bank_cfg(), wi(1.0)).await, w.add_bank_fixed(g, mint, default_bank_cfg(), wi(1.0)).await) {
+        (Ok(x), Ok(y)) => (x, y),
+        _ => {
+            m.r.count("scen.dust_debt_scenario_not_possible");
+            return;
+        }
+    };
+    let unit = 10u64.pow(w.mints[mint].decimals.min(9) as u32);
+    let lk = w.auth_of(lender);
+    w.mint_to(mint, w.ta_of(lender, x), 1_000_000 * unit).await;
+    let i = w.ix_deposit(lender, x, lk.pubkey(), w.ta_of(lender, x), 10_000 * unit, None);
+    if !w.exec(m, &[i], &[&lk]).await.ok() {
+        m.r.count("scen.dust_debt_scenario_not_possible");
+        return;
+    }
+    let u = w.add_user(0).await;
+    let a = w.add_account(g, u).await;
+    let auth = w.auth_of(a);
+    let ak = auth.pubkey();
+    let ta = w.ta_of(a, x);
+    w.mint_to(mint, ta, 1_000_000 * unit).await;
+    let i = w.ix_deposit(a, y, ak, w.ta_of(a, y), 100_000 * unit, None);
+    if !w.exec(m, &[i], &[&auth]).await.ok() {
+        m.r.count("scen.dust_debt_scenario_not_possible");
+        return;
+    }
+    // borrow, let a little interest accrue, repay exactly what was borrowed
+    let mut dust = false;
+    for (amt, dt) in [(100u64, 60i64), (1000, 60), (100, 3600), (10_000, 600)] {
+        let i = w.ix_borrow(a, x, ak, ta, amt);
+        if !w.exec(m, &[i], &[&auth]).await.ok() {
+            continue;
+        }
+        w.chain.advance(dt);
+        w.refresh_oracles();
+        let i = w.ix_repay(a, x, ak, ta, amt, None);
+        let _ = w.exec(m, &[i], &[&auth]).await;
+        let q = BankQ::of(&w.bank(x));
+        let left = w.acct(a).lending_account.balances.iter().find(|b| b.active != 0 && b.bank_pk == w.banks[x].key).map(|b| fx(&b.liability_shares.value) * &q.lsv).unwrap_or_else(zero);
+        if left > zero() && left < rq(1, 10_000) {
+            dust = true;
+            break;
+        }
+        // too much (or nothing) left: clear it and try another size
+        let i = w.ix_repay(a, x, ak, ta, 0, Some(true));
+        let _ = w.exec(m, &[i], &[&auth]).await;
+    }
+    m.r.count(if dust { "scen.accounts_left_with_a_dust_debt" } else { "scen.dust_debt_not_produced" });
+    // the limit admin puts the deposit limit just above what is deposited
+    let q = BankQ::of(&w.bank(x));
+    let deposited = to_u64_floor(&q.d).unwrap_or(0);
+    let limit = deposited + pick(r, &[1u64, 50, 1000]);
+    let la = clone_kp(&w.groups[g].limit);
+    let i = ix::configure_bank_limits(w.groups[g].key, la.pubkey(), w.banks[x].key, Some(limit), None, None);
+    if !w.exec(m, &[i], &[&la]).await.ok() {
+        m.r.count("scen.dust_debt_limit_not_set");
+        return;
+    }
+    for (amt, up) in [(10_000 * unit, None), (limit - deposited + 1, None), (10_000 * unit, Some(true)), (2, None)] {
+        let i = w.ix_deposit(a, x, ak, ta, amt, up);
+        let o = w.exec(m, &[i], &[&auth]).await;
+        m.r.count("scen.deposits_over_the_cap_by_an_account_with_a_dust_debt");
+        m.r.count(if o.ok() { "scen.dust_debt_over_cap_deposit_accepted" } else { "scen.dust_debt_over_cap_deposit_refused" });
+    }
+}
+
 /// Bankruptcy scenario: collateral becomes worthless, then the debt is written off.
 pub async fn bankruptcy(w: &mut World, m: &mut Mon, r: &mut R, lev: &Lev, g: usize) {
     let db = lev.db;
